@@ -121,6 +121,11 @@ def check(sd, tier):
         elif kind != 'default':
             leaf['_updater'] = kind
         name = 'v%d' % i
+        if kind in ('units', 'units_user') and random.Random(str(sd) + name).random() < 0.5:
+            # explicit _units; the default is WRITTEN in another compatible unit (2 mg == 0.002 g): the declared unit rules
+            leaf['_units'] = units.mg
+            leaf['_default'] = 0.002 * units.g
+            cur = 0.002 * units.g
         schema[name] = leaf
         model[name] = copy.deepcopy(cur)
         kinds[name] = (kind, gen)
@@ -159,12 +164,23 @@ def check(sd, tier):
             update[name] = entries[0] if len(entries) == 1 else {'_multi_update': entries}
         full_update = {'branch': update} if nested else update
         before = copy.deepcopy(full_update)
+        # the value objects the hierarchy holds now (what a process was handed in its view): an updater computes a NEW
+        # value, it does not change the old object (dict_value is documented to work in place and is left out)
+        held = {}
+        for name in model:
+            if kinds[name][0] != 'dict_value':
+                node = store.get_path((('branch',) if nested else ()) + (name,))
+                held[name] = (node.value, copy.deepcopy(node.value))
         try:
             store.apply_update(full_update)
         except Exception as e:
             return ['apply_update raised %s: %s for update %r' % (type(e).__name__, str(e)[:150], before)]
         if not eq_tree(before, full_update):
             fails.append('the update object handed in was modified: %r -> %r' % (before, full_update))
+        for name, (obj, was) in held.items():
+            if not eq(obj, was):
+                fails.append('updater %s of %s changed the value object the hierarchy held before the update in place: %r -> %r'
+                             % (kinds[name][0], name, was, obj))
         got = current()
         for name in model:
             if not eq(got[name], model[name]):
